@@ -196,6 +196,8 @@ func runC02(s *kernel.Sim) {
 
 	var txns []*c02txn
 	n := 0
+	simLocks := tp.Chance(1, 4)
+	s.Knobs["simulated_blocking"] = simLocks
 	reuseIDs := tp.Chance(1, 3)
 	s.Knobs["request_ids_reused"] = reuseIDs
 	path := func(level int) string { return map[int]string{0: "/c", 1: "/p"}[level] }
@@ -506,6 +508,10 @@ func runC02(s *kernel.Sim) {
 			}
 		} else {
 			inGroup = true
+			// a quarter of the runs simulate blocking in their concurrent groups
+			// (kernel/simlock.go): operations are parked inside critical sections too, and
+			// one that cannot get a lock waits for it as a parked task
+			s.SimLocks = simLocks
 			for i, o := range ops {
 				o := o
 				s.Spawn(fmt.Sprintf("g%d.%d", g, i), func() { run(o) })
@@ -518,6 +524,15 @@ func runC02(s *kernel.Sim) {
 				s.Resume(p[tp.Choose(len(p))])
 			}
 			inGroup = false
+			if simLocks {
+				s.SettleLocks()
+				s.Rule("R4")
+				if dead, desc := s.Deadlocked(0); dead {
+					s.Violate("R4", "deadlock", "operations of one concurrent group: every live task waits for a lock and none of them can be released: %s", desc)
+					return
+				}
+				s.SimLocks = false
+			}
 			s.FaultFired("concurrent_group")
 		}
 		if s.Failed() {
